@@ -440,41 +440,17 @@ theorem opens_files (E : Env) (enc : Kind → Bs → Bs) (hD : E.Decodes enc) (f
     exact .cons stdin stdin f.1 _ f.2.1 f.2.2 _ (openPath_file E enc hD fs stdin f.1 _ h1 h2)
       (ih (fun g hg => hf g (by simp [hg])))
 
-/-- with the output closed by its reader after `k` records (`hr ... | head`), `hr` has emitted the first `k`
-    records of that output and exits with 0 -/
-theorem hr_broken_pipe (k : Nat) (out : List Shown) (e : Exit) (hk : k < out.length) :
-    pipeCut k (out, e) = (out.take k, .code 0) := by
-  simp [pipeCut, hk]
-
-/-- the exit codes of `main()`: 0 for a run without exception, 65 for a JSONDecodeError, 1 for any other one, and
-    what `_main` returns otherwise -/
-theorem hr_exit_codes : (Exit.code 0).status = 0 ∧ (Exit.raised .json).status = 65 ∧
-    (∀ e, e ≠ .json → (Exit.raised e).status = 1) ∧ (∀ n, (Exit.code n).status = n) := by
-  refine ⟨rfl, rfl, ?_, fun _ => rfl⟩
-  intro e he
-  cases e <;> first | rfl | exact absurd rfl he
-
-/-! ### non-vacuity -/
-
-/-- a record with a newline, a quote, a control character and an astral code point in its text, and tags -/
-def sample : Rec :=
-  { module := [103], host := [104], data := [10, 34, 0, 0x1F600, 92], datetime := [50], prio := 6,
-    tags := some [[97, 10], []], line := [47], stacktrace := none, levelNo := 20, levelName := [73], funcName := [102] }
-
-theorem sample_wf : sample.WF := by
-  apply wf_of_scalar
-  simp only [Rec.Scalar, sample]
-  decide
-
-example : records (fileOf true [sample, { sample with prio := 3 }]) .reverse 4 = [some { sample with prio := 3 }] := by
-  have hw : ∀ r ∈ [sample, { sample with prio := 3 }], r.WF := by
-    intro r hr
-    simp only [List.mem_cons, List.not_mem_nil, or_false] at hr
-    rcases hr with rfl | rfl
-    · exact sample_wf
-    · exact sample_wf
-  rw [reverse_exact true _ hw 4]
-  decide
+/-- with the output closed by its reader after `k` records (`hr ... | head`), under the hypotheses of
+    `hr_output_eq_slice`: `hr` has emitted exactly the first `k` records of that output and exits with 0 -/
+theorem hr_broken_pipe (E : Env) (hE : E.LoadsOk) (fs : Str → Node) (stdin : Bs) (argv : List Str) (plan : Plan)
+    (hp : hrPlan argv = .plan plan) (hn : 0 ≤ plan.n) (logs : List (Bool × List Rec))
+    (ho : Opens E fs stdin plan.files logs) (hr : ∀ l ∈ logs, ∀ r ∈ l.2, r.Readable) (k : Nat)
+    (hk : k < (logs.flatMap (fun l => (slice plan.mode plan.n.toNat plan.prio l.2).map shown)).length) :
+    pipeCut k (hrRun E fs stdin argv) =
+      ((logs.flatMap (fun l => (slice plan.mode plan.n.toNat plan.prio l.2).map shown)).take k, .code 0) := by
+  rw [hr_output_eq_slice E hE fs stdin argv plan hp hn logs ho hr]
+  unfold pipeCut
+  rw [if_pos hk]
 
 /-! #### non-vacuity of the second part -/
 
